@@ -55,6 +55,9 @@ def op_strategies(typed=False, explicit_ids=True, fresh=False, valid_before_only
                      else st.tuples(st.just("add_node"), PREF, st.sampled_from([0, 0, 1]), REF, tri, B).map(list)),
         "copy_to": st.tuples(st.just("copy_to"), REF, PREF, st.sampled_from([True, True, False]), B, st.booleans()).map(list),
         "add_tree": st.tuples(st.just("add_tree"), PREF, B, tri).map(list),
+        # the tree copied into itself (below one of its own nodes: valid; at top level: collides with itself)
+        "add_own_tree": st.tuples(st.just("add_own_tree"), PREF, B, tri).map(list),
+        "own_copy_to": st.tuples(st.just("own_copy_to"), PREF, tri).map(list),
         # target -2 = the second tree (cross-tree move: refused), one time in ten
         "move": st.tuples(st.just("move"), REF, st.tuples(st.integers(-1, 40), st.sampled_from([0] * 9 + [1])).map(lambda t: -2 if t[1] else t[0]), B).map(list),
         "remove": st.tuples(st.just("remove"), REF, st.sampled_from([False, False, True]), st.sampled_from([False, False, True])).map(list),
@@ -89,7 +92,7 @@ def _fix_meta(t):
 
 
 ALL_KINDS = ["add", "append_child", "prepend_child", "prepend_sibling", "append_sibling", "add_node", "copy_to",
-             "add_tree", "move", "remove", "remove_children", "clear", "del", "sort", "set_data", "rename", "meta", "filter"]
+             "add_tree", "add_own_tree", "own_copy_to", "move", "remove", "remove_children", "clear", "del", "sort", "set_data", "rename", "meta", "filter"]
 
 PROFILES = {
     "all": ALL_KINDS,
@@ -98,7 +101,7 @@ PROFILES = {
     "clones": ["add", "add_node", "add_node", "copy_to", "remove", "set_data", "rename", "del"],
     "rekey": ["add", "add_node", "set_data", "set_data", "rename", "remove", "move"],
     "insert": ["add", "add", "append_child", "prepend_child", "prepend_sibling", "append_sibling", "sort", "meta"],
-    "bulk": ["add", "add_tree", "copy_to", "clear", "remove_children", "filter", "sort", "add_node"],
+    "bulk": ["add", "add_tree", "copy_to", "clear", "remove_children", "filter", "sort", "add_node", "add_own_tree", "own_copy_to"],
 }
 
 
